@@ -343,6 +343,20 @@ func checkC08(ctx *Ctx) *Result {
 	r.check(bad == "", "R8.2", "external calls of the validation path", "", bad, len(ext))
 	r.sample(map[string]any{"external_calls_on_validation_path": ext})
 	builderRule(ctx, r, "R8.3")
+	// "given an invalid Config it returns a non-nil error": the prohibition
+	// tables and error discipline of validation (shared with C04)
+	r.rule("R8.4", "an invalid Config is rejected: no documented violation passes without its error (decision tables, error discipline, integer ranges)", 60)
+	vf := ctx.ValidationFacts()
+	if len(vf.Problems) > 0 {
+		r.undecided("R8.4", "validation-path", strings.Join(vf.Problems, "; "))
+	} else {
+		for _, f := range sortedKeys(val.Lists) {
+			l0(ctx, r, "R8.4", val.Lists[f])
+			entryRule(ctx, r, "R8.4", val.Lists[f])
+		}
+		reportMismatches(r, "R8.4", val, vf, func(m mismatch) bool { return m.Missing && m.Kind == "missing-error" }, "an invalid Config would be accepted")
+		intRule(ctx, r, "R8.4")
+	}
 	return r
 }
 
